@@ -376,7 +376,7 @@ fn minimise(mut best: Trace, prop: &str, key: &str, scratch: &Path) -> (Trace, u
 /// the best replay available: (1) the same programme, Miri-sized, under Miri with many seeds - if
 /// one of them fails, that (trace, Miri seed) pair replays exactly; (2) otherwise the native
 /// trace, with the measured failure frequency, to be re-executed until it fails.
-fn stress_replay(vdir: &Path, prof: Profile, prop: &str, seed: u64, first: &Viol, scratch: &Path, note: &mut String) -> PathBuf {
+fn stress_replay(vdir: &Path, sim_dir: &Path, prof: Profile, prop: &str, seed: u64, first: &Viol, scratch: &Path, note: &mut String) -> PathBuf {
     let _ = std::fs::create_dir_all(vdir.join("replay"));
     let tr = generate_only(prof, seed, first.idx, first.idx + 1);
     let native = vdir.join("replay").join(format!("{prop}-seed{seed}-run{}.stress.trace", first.idx));
@@ -410,7 +410,7 @@ fn stress_replay(vdir: &Path, prof: Profile, prop: &str, seed: u64, first: &Viol
     let nseeds = 32;
     let flags = format!("-Zmiri-many-seeds=0..{nseeds} -Zmiri-preemption-rate=0.05 -Zmiri-disable-isolation");
     let out = Command::new("cargo")
-        .current_dir(vdir.join("sim"))
+        .current_dir(sim_dir)
         .env("MIRIFLAGS", &flags)
         .env("CARGO_NET_OFFLINE", "true")
         .env("CARGO_TARGET_DIR", vdir.join("target").join("miri"))
@@ -470,6 +470,7 @@ pub fn check_main(args: &[String]) -> i32 {
     };
     let (miri_workloads, miri_seeds) = (arg_u64(args, "--miri-workloads", dw), arg_u64(args, "--miri-seeds", ds));
     let scratch = std::env::temp_dir();
+    let sim_dir_arg = PathBuf::from(arg_val(args, "--sim-dir").unwrap_or_else(|| vdir.join("sim").to_string_lossy().into_owned()));
     println!("dsim check property={prop} tier={tier} seed={seed} profile={} runs={runs} jobs={jobs} miri={}", prof.name(), if with_miri { format!("{miri_workloads}x{miri_seeds}") } else { "off".into() });
 
     // stale replay files of this property from earlier runs would only confuse
@@ -646,7 +647,7 @@ pub fn check_main(args: &[String]) -> i32 {
         // alone in a fresh process, or else as the tail of its session's history
         if first.key.starts_with("I3:stress") {
             // found by the free-running scout: look for a deterministic replay under Miri first
-            let path = stress_replay(&vdir, prof, &prop, seed, first, &scratch, &mut min_note);
+            let path = stress_replay(&vdir, &sim_dir_arg, prof, &prop, seed, first, &scratch, &mut min_note);
             println!("{min_note}");
             violation_lines.push(format!("VIOLATION property={prop} replay={}", path.display()));
         } else {
